@@ -75,7 +75,7 @@ func run(c *h.Ctx, cs chain.Case) {
 }
 
 func draw(t *rapid.T) chain.Case {
-	return chain.DrawConforming(t, chain.GenOpt{MaxLen: 6, Commands: true, Policies: true, Times: true, Irrelevant: true, Args: true})
+	return chain.DrawConforming(t, chain.GenOpt{MaxLen: 6, Commands: true, Policies: true, Times: true, Irrelevant: true, Args: true, MixedAlgs: rapid.IntRange(0, 2).Draw(t, "mixed") == 0})
 }
 
 var prop = h.Define(P, "chain", draw, run)
